@@ -7,15 +7,18 @@ import (
 	"math/rand"
 	"os"
 	"os/exec"
+	"sort"
 	"strconv"
 	"strings"
 	. "zharness/hz"
 
 	"github.com/zenon-network/go-zenon/chain"
+	"github.com/zenon-network/go-zenon/chain/genesis"
 	g "github.com/zenon-network/go-zenon/chain/genesis/mock"
 	"github.com/zenon-network/go-zenon/chain/nom"
 	"github.com/zenon-network/go-zenon/chain/store"
 	"github.com/zenon-network/go-zenon/common/types"
+	"github.com/zenon-network/go-zenon/vm"
 	"github.com/zenon-network/go-zenon/vm/constants"
 	"github.com/zenon-network/go-zenon/vm/embedded"
 	"github.com/zenon-network/go-zenon/vm/embedded/definition"
@@ -62,8 +65,10 @@ func probes() []probe {
 type sporkRec struct {
 	id        types.Hash
 	createdAt uint64
-	enf       uint64 // expected enforcement height, from the observed activation (0 = not activated)
+	activated bool   // an activation was observed (or the genesis configuration ships it activated)
+	enf       uint64 // expected enforcement height: from the observed activation, or from the genesis configuration (any value, also 0)
 	attempts  int
+	genesis   bool // defined by the genesis configuration
 }
 
 type sporkHist struct {
@@ -72,12 +77,15 @@ type sporkHist struct {
 	out    *Out
 	ids    *sporkIds
 	sporks []*sporkRec
+	gen    []*sporkRec                // sporks defined by the genesis configuration (created only / already activated)
 	role   [4]*types.ImplementedSpork // index by guard number
 	pr     []probe
 	known  map[types.Hash]bool // activation already observed
 	fol    *BareNode           // follower: fed the producer's momentums through ChainBridge.InsertChain
 	fed    uint64              // height up to which the follower has been fed
 	htlcs  []types.Hash        // inserted Htlc.Create sends (executed or refunded), compared on the follower
+
+	savedCfg *genesis.SporkConfig
 }
 
 func (h *sporkHist) send(kp *wallet.KeyPair, to types.Address, zts types.ZenonTokenStandard, amount *big.Int, data []byte) (*nom.AccountBlock, error) {
@@ -95,6 +103,8 @@ func (h *sporkHist) send(kp *wallet.KeyPair, to types.Address, zts types.ZenonTo
 	return tx.Block, nil
 }
 
+func (h *sporkHist) all() []*sporkRec { return append(append([]*sporkRec{}, h.gen...), h.sporks...) }
+
 func roleIds(ids *sporkIds) interface{} {
 	return Tup(I64(int64(ids.idx(types.AcceleratorSpork.SporkId))), I64(int64(ids.idx(types.HtlcSpork.SporkId))), I64(int64(ids.idx(types.BridgeAndLiquiditySpork.SporkId))))
 }
@@ -107,7 +117,7 @@ func setRoles(acc, htlc, bridge types.Hash) {
 }
 
 // evaluate everything the property talks about against the store of the momentum at `height`
-func (h *sporkHist) checkStore(ms store.Momentum, tagExtra string) {
+func (h *sporkHist) checkStore(ch chain.Chain, ms store.Momentum, tagExtra string) {
 	fm, err := ms.GetFrontierMomentum()
 	if err != nil {
 		panic(err)
@@ -161,15 +171,15 @@ func (h *sporkHist) checkStore(ms store.Momentum, tagExtra string) {
 			tag = "active"
 		}
 		// own statement: active iff an activation of that id was observed with ack + delay <= this height (and height > 1)
-		want := false
+		want, activated := false, false
 		var enf uint64
-		for _, r := range h.sporks {
-			if r.id == sp.SporkId && r.enf != 0 {
-				enf = r.enf
+		for _, r := range h.all() {
+			if r.id == sp.SporkId && r.activated {
+				enf, activated = r.enf, true
 				want = r.enf <= height && height != 1
 			}
 		}
-		if enf != 0 {
+		if activated {
 			switch {
 			case height+1 == enf:
 				tag += "-just-below-enforcement"
@@ -184,7 +194,7 @@ func (h *sporkHist) checkStore(ms store.Momentum, tagExtra string) {
 			M{"height": U64(height), "enforcement": U64(enf), "active": real, "where": tagExtra})
 	}
 	nesting := (!act[2] || act[3]) && (!act[3] || act[1])
-	ctx := vm_context.NewAccountContext(ms, h.nd.Ch.GetFrontierAccountStore(g.User1.Address), nil)
+	ctx := vm_context.NewAccountContext(ms, ch.GetFrontierAccountStore(g.User1.Address), nil)
 	for _, p := range h.pr {
 		_, err := embedded.GetEmbeddedMethod(ctx, p.contract, p.data)
 		code := lookupCode(err)
@@ -193,7 +203,7 @@ func (h *sporkHist) checkStore(ms store.Momentum, tagExtra string) {
 		available := code == 0
 		// the property: a spork-gated feature is available only where its own spork is enforced ...
 		if available && p.guard != 0 {
-			detail := M{"method": p.name, "height": U64(height), "accelerator_active": act[1], "htlc_active": act[2], "bridge_active": act[3]}
+			detail := M{"method": p.name, "height": U64(height), "accelerator_active": act[1], "htlc_active": act[2], "bridge_active": act[3], "where": tagExtra}
 			// the known finding F12 is exactly: enabled by a spork whose table is built on top of the method's own one
 			// (htlc on bridge-and-liquidity on accelerator); anything else is not covered by it
 			nestedAbove := (p.guard == 1 && (act[3] || act[2])) || (p.guard == 3 && act[2])
@@ -206,34 +216,58 @@ func (h *sporkHist) checkStore(ms store.Momentum, tagExtra string) {
 		// ... and available from that height on (with the sporks enforced in nesting order both directions hold)
 		if nesting {
 			h.out.Oracle(available == act[p.guard], "gated-method-follows-its-spork",
-				M{"method": p.name, "height": U64(height), "available": available, "spork_active": act[p.guard]})
+				M{"method": p.name, "height": U64(height), "available": available, "spork_active": act[p.guard], "where": tagExtra})
 		} else {
 			h.out.Count("node:store-not-in-nesting-order")
 		}
 		if p.guard != 0 && act[p.guard] {
-			h.out.Oracle(available, "method-unavailable-although-its-spork-is-enforced", M{"method": p.name, "height": U64(height)})
+			h.out.Oracle(available, "method-unavailable-although-its-spork-is-enforced", M{"method": p.name, "height": U64(height), "where": tagExtra})
 		}
 	}
 }
 
 // full path (verifier + vm) for a user send acknowledging the frontier: rejected with "method not found /
 // contract doesn't exist" exactly when the table of the acknowledged store lacks the method
-func (h *sporkHist) applyProbes() {
-	fr := h.nd.Ch.GetFrontierMomentumStore()
-	ctx := vm_context.NewAccountContext(fr, h.nd.Ch.GetFrontierAccountStore(g.User2.Address), nil)
+func (h *sporkHist) applyProbes(ch chain.Chain, sv *vm.Supervisor, where string) {
+	fr := ch.GetFrontierMomentumStore()
+	height := fr.Identifier().Height
+	ctx := vm_context.NewAccountContext(fr, ch.GetFrontierAccountStore(g.User2.Address), nil)
 	for _, p := range h.pr {
 		b := &nom.AccountBlock{BlockType: nom.BlockTypeUserSend, Address: g.User2.Address, ToAddress: p.contract, TokenStandard: types.ZnnTokenStandard, Amount: big.NewInt(0), Data: p.data}
-		_, err := h.nd.Sv.GenerateFromTemplate(b, g.User2.Signer)
+		_, err := sv.GenerateFromTemplate(b, g.User2.Signer)
 		_, terr := embedded.GetEmbeddedMethod(ctx, p.contract, p.data)
 		rejectedForMethod := err == constants.ErrContractMethodNotFound || err == constants.ErrContractDoesntExist
 		h.out.Oracle(rejectedForMethod == (terr != nil), "send-validation-uses-the-acknowledged-store",
-			M{"method": p.name, "height": U64(fr.Identifier().Height), "apply_error": fmt.Sprint(err), "table_error": fmt.Sprint(terr)})
+			M{"method": p.name, "height": U64(height), "apply_error": fmt.Sprint(err), "table_error": fmt.Sprint(terr), "where": where})
+		// the property's own statement on the full path (verifier + vm of a send acknowledging this frontier): with the
+		// sporks enforced in nesting order the gated call is refused for its method exactly below its spork's enforcement height
+		if p.guard != 0 {
+			act := [4]bool{}
+			for gi := 1; gi <= 3; gi++ {
+				act[gi] = h.wantActive(h.role[gi].SporkId, height)
+			}
+			if (!act[2] || act[3]) && (!act[3] || act[1]) {
+				h.out.Oracle(rejectedForMethod == !act[p.guard], "gated-send-refused-iff-below-enforcement-height",
+					M{"method": p.name, "height": U64(height), "apply_error": fmt.Sprint(err), "spork_enforced": act[p.guard], "where": where})
+			}
+		}
 		if rejectedForMethod {
-			h.out.Count("node:apply:rejected:" + p.name)
+			h.out.Count("node:apply" + where + ":rejected:" + p.name)
 		} else {
-			h.out.Count("node:apply:reached-method:" + p.name)
+			h.out.Count("node:apply" + where + ":reached-method:" + p.name)
 		}
 	}
+}
+
+// the statement's rule from what the history did (observed activations, genesis configuration): enforced for a block
+// evaluated against the momentum at `height` (momentum 1, the genesis itself, has no spork: the unchanged rule of IsSporkActive)
+func (h *sporkHist) wantActive(id types.Hash, height uint64) bool {
+	for _, r := range h.all() {
+		if r.id == id && r.activated {
+			return r.enf <= height && height != 1
+		}
+	}
+	return false
 }
 
 func (h *sporkHist) observeSporks() {
@@ -268,19 +302,28 @@ func (h *sporkHist) observeSporks() {
 		}
 		h.out.Oracle(ackHeight != 0 && s.EnforcementHeight == ackHeight+constants.SporkMinHeightDelay, "enforcement-height-is-ack-height-plus-delay",
 			M{"ack_height": U64(ackHeight), "enforcement": U64(s.EnforcementHeight)})
-		for _, r := range h.sporks {
+		for _, r := range h.all() {
 			if r.id == s.Id {
-				h.out.Oracle(r.enf == 0, "activate-only-once", M{"id": I64(int64(h.ids.idx(s.Id)))})
-				r.enf = s.EnforcementHeight
+				h.out.Oracle(!r.activated, "activate-only-once", M{"id": I64(int64(h.ids.idx(s.Id)))})
+				r.activated, r.enf = true, s.EnforcementHeight
 			}
 		}
 	}
-	// enforcement heights never change afterwards
-	for _, s := range stored {
-		for _, r := range h.sporks {
-			if r.id == s.Id && r.enf != 0 {
+	// enforcement heights never change afterwards (also those the genesis configuration came with), nothing disappears
+	for _, r := range h.all() {
+		found := false
+		for _, s := range stored {
+			if r.id != s.Id {
+				continue
+			}
+			found = true
+			if r.activated {
 				h.out.Oracle(s.Activated && s.EnforcementHeight == r.enf, "activate-only-once", M{"stored": U64(s.EnforcementHeight), "first": U64(r.enf)})
 			}
+		}
+		// (a creation by transaction is in the contract state two momentums later: send confirmed, then received)
+		if !r.id.IsZero() && (r.genesis || fr.Identifier().Height >= r.createdAt+3) {
+			h.out.Oracle(found, "defined-spork-stays-defined", M{"id": I64(int64(h.ids.idx(r.id))), "created_at": U64(r.createdAt), "height": U64(fr.Identifier().Height)})
 		}
 	}
 }
@@ -292,13 +335,12 @@ func (h *sporkHist) step() {
 	h.nd.Momentum()
 	h.syncFollower(false)
 	h.observeSporks()
-	h.checkStore(h.nd.Ch.GetFrontierMomentumStore(), "")
-	h.applyProbes()
+	h.checkFrontier()
 	// historical stores: around every enforcement height already passed, and a random older one
 	fh := h.nd.FrontierHeight()
 	var hs []uint64
-	for _, r := range h.sporks {
-		if r.enf != 0 {
+	for _, r := range h.all() {
+		if r.activated {
 			for d := uint64(0); d < 3; d++ {
 				if x := r.enf + d - 1; x < fh && x >= 1 {
 					hs = append(hs, x)
@@ -324,22 +366,59 @@ func (h *sporkHist) step() {
 			h.out.Oracle(false, "harness-historical-store-unavailable", M{"height": U64(x)})
 			continue
 		}
-		h.checkStore(ms, "-historical-store")
+		h.checkStore(h.nd.Ch, ms, "-historical-store")
 	}
 }
 
-func newSporkHist(rng *rand.Rand, out *Out) *sporkHist {
-	nd := NewNode()
-	h := &sporkHist{nd: nd, rng: rng, out: out, ids: &sporkIds{m: map[types.Hash]int{}}, pr: probes(), known: map[types.Hash]bool{}}
+// everything about blocks evaluated against the producer's frontier momentum
+func (h *sporkHist) checkFrontier() {
+	h.checkStore(h.nd.Ch, h.nd.Ch.GetFrontierMomentumStore(), "")
+	h.applyProbes(h.nd.Ch, h.nd.Sv, "")
+}
+
+// genesisSporks: what GenesisConfig.SporkConfig ships (nil = the mock genesis as it is, no SporkConfig at all). The mock
+// genesis configuration is one object shared by every node of the process: producer and follower are created from it
+// while it carries the sporks, close() puts the previous value back.
+func newSporkHist(rng *rand.Rand, out *Out, genesisSporks []*definition.Spork) *sporkHist {
+	h := &sporkHist{rng: rng, out: out, ids: &sporkIds{m: map[types.Hash]int{}}, pr: probes(), known: map[types.Hash]bool{}}
+	h.savedCfg = g.EmbeddedGenesis.SporkConfig
+	if genesisSporks != nil {
+		g.EmbeddedGenesis.SporkConfig = &genesis.SporkConfig{Sporks: genesisSporks}
+		for _, s := range genesisSporks {
+			types.ImplementedSporksMap[s.Id] = true // the binary "knows" them; the halt suite covers unknown ones
+			h.ids.idx(s.Id)
+			h.gen = append(h.gen, &sporkRec{id: s.Id, createdAt: 1, activated: s.Activated, enf: s.EnforcementHeight, genesis: true})
+			if s.Activated {
+				h.known[s.Id] = true
+			}
+		}
+	}
+	h.nd = NewNode()
 	h.role = [4]*types.ImplementedSpork{nil, types.AcceleratorSpork, types.HtlcSpork, types.BridgeAndLiquiditySpork}
 	h.fol = OpenBare("")
 	h.fed = 1
+	// the genesis configuration reached the spork contract of both nodes
+	for _, ch := range []chain.Chain{h.nd.Ch, h.fol.Ch} {
+		stored, _ := ch.GetFrontierMomentumStore().GetAllDefinedSporks()
+		ok := len(stored) == len(genesisSporks)
+		for _, s := range genesisSporks {
+			hit := false
+			for _, t := range stored {
+				hit = hit || (t.Id == s.Id && t.Activated == s.Activated && t.EnforcementHeight == s.EnforcementHeight)
+			}
+			ok = ok && hit
+		}
+		out.Oracle(ok, "genesis-sporks-are-in-the-spork-contract", M{"configured": I64(int64(len(genesisSporks))), "stored": I64(int64(len(stored)))})
+	}
+	pg, fg := h.nd.Ch.GetGenesisMomentum(), h.fol.Ch.GetGenesisMomentum()
+	out.Oracle(pg.Hash == fg.Hash, "follower-accepts-the-producers-chain", M{"height": U64(1), "what": "genesis momentum differs"})
 	return h
 }
 
 func (h *sporkHist) close() {
 	h.fol.Destroy()
 	h.nd.Stop()
+	g.EmbeddedGenesis.SporkConfig = h.savedCfg
 }
 
 // what a block evaluated against the store of momentum `height` sees, as a comparable string
@@ -384,11 +463,22 @@ func (h *sporkHist) syncFollower(force bool) {
 			h.out.Oracle(false, "follower-accepts-the-producers-chain", M{"height": U64(x)})
 			continue
 		}
+		fms := h.fol.Ch.GetMomentumStore(m.Identifier())
 		pv := h.view(h.nd.Ch.GetMomentumStore(m.Identifier()))
-		fv := h.view(h.fol.Ch.GetMomentumStore(m.Identifier()))
+		fv := h.view(fms)
 		h.out.Oracle(pv == fv, "follower-sees-the-same-sporks-and-methods-at-every-height", M{"height": U64(x), "producer": pv, "follower": fv})
+		// the statement itself on the syncing node (not only "same as the producer"): every early momentum, the momentums
+		// around the enforcement heights, the end of the batch, a sample of the rest
+		near := x <= constants.SporkMinHeightDelay+3 || x == top
+		for _, r := range h.all() {
+			near = near || (r.activated && x+1 >= r.enf && x <= r.enf+1)
+		}
+		if near || h.rng.Intn(8) == 0 {
+			h.checkStore(h.fol.Ch, fms, "-follower")
+		}
 	}
 	h.fed = top
+	h.applyProbes(h.fol.Ch, h.fol.Sv, "-follower")
 	// executed / refunded gated calls: the same receive block on both nodes
 	for _, sh := range h.htlcs {
 		a, _ := pf.GetBlockWhichReceives(sh)
@@ -441,7 +531,21 @@ func (h *sporkHist) create(kp *wallet.KeyPair, name string) *sporkRec {
 }
 
 func nodeHistory(rng *rand.Rand, out *Out) {
-	h := newSporkHist(rng, out)
+	// the genesis configuration the chain starts from: no SporkConfig (the mock genesis as it is), an empty one, or
+	// sporks in every state: created only, activated with an enforcement height of 0, 1, 2, ... around
+	// SporkMinHeightDelay (below what an activation by transaction can reach), later, far in the future
+	var gsp []*definition.Spork
+	if rng.Intn(3) != 0 {
+		gsp = randomGenesisSporks(rng, rng.Intn(4), func(int) types.Hash {
+			var id types.Hash
+			rng.Read(id[:])
+			return id
+		})
+		if gsp == nil {
+			gsp = []*definition.Spork{}
+		}
+	}
+	h := newSporkHist(rng, out, gsp)
 	defer h.close()
 	// ids that are never created stand for "spork not defined on this chain"
 	var none [3]types.Hash
@@ -453,10 +557,16 @@ func nodeHistory(rng *rand.Rand, out *Out) {
 	length := 45 + rng.Intn(30)
 	type ev struct {
 		at   int
-		kind int // 0 create, 1 activate, 2 activate by wrong key, 3 activate unknown id, 4 create by wrong key
+		kind int // 0 create, 1 activate, 2 activate by wrong key, 3 activate unknown id, 4 create by wrong key, 5 activate a genesis spork
 		idx  int
 	}
 	var evs []ev
+	for i := range h.gen {
+		// created only: first activation by transaction; already activated: must be refused, at any time (also before its enforcement height)
+		if rng.Intn(3) != 0 {
+			evs = append(evs, ev{1 + rng.Intn(length/2), 5, i})
+		}
+	}
 	for i := 0; i < nSporks; i++ {
 		c := 1 + rng.Intn(length/3)
 		evs = append(evs, ev{c, 0, i})
@@ -474,13 +584,39 @@ func nodeHistory(rng *rand.Rand, out *Out) {
 	evs = append(evs, ev{2 + rng.Intn(20), 3, 0}, ev{2 + rng.Intn(20), 4, 0})
 	// roles: which created spork plays which implemented spork (or none)
 	perm := rng.Perm(nSporks)
+	gperm := rng.Perm(len(h.gen))
 	roleOf := map[int]int{} // spork index -> guard number
+	gRoles := 0
 	for gi := 1; gi <= 3; gi++ {
-		if rng.Intn(5) != 0 && gi-1 < len(perm) {
+		switch {
+		case rng.Intn(5) == 0:
+		case gRoles < len(gperm) && rng.Intn(2) == 0: // played by a spork of the genesis configuration, from momentum 1 on
+			h.role[gi].SporkId = h.gen[gperm[gRoles]].id
+			gRoles++
+		case gi-1 < len(perm):
 			roleOf[perm[gi-1]] = gi
 		}
 	}
-	out.Count(fmt.Sprintf("node:history:sporks=%d:roles=%d", nSporks, len(roleOf)))
+	out.Count(fmt.Sprintf("node:history:sporks=%d:roles=%d:genesis-sporks=%d:genesis-roles=%d", nSporks, len(roleOf), len(h.gen), gRoles))
+	if gsp == nil {
+		out.Count("node:history:genesis-without-spork-config")
+	}
+	for _, r := range h.gen {
+		switch {
+		case !r.activated:
+			out.Count("node:genesis-spork:created-only")
+		case r.enf <= 1:
+			out.Count("node:genesis-spork:enforcement<=1")
+		case r.enf <= constants.SporkMinHeightDelay:
+			out.Count("node:genesis-spork:enforcement-within-min-delay")
+		case r.enf < 100:
+			out.Count("node:genesis-spork:enforcement-later")
+		default:
+			out.Count("node:genesis-spork:enforcement-far-future")
+		}
+	}
+	// blocks evaluated against the genesis momentum itself
+	h.checkFrontier()
 	for t := 1; t <= length; t++ {
 		for _, e := range evs {
 			if e.at != t {
@@ -521,6 +657,14 @@ func nodeHistory(rng *rand.Rand, out *Out) {
 			case 4:
 				h.create(g.User1, "spork-by-user")
 				out.Count("node:act:create-wrong-key")
+			case 5:
+				r := h.gen[e.idx]
+				h.send(g.Spork, types.SporkContract, types.ZnnTokenStandard, nil, definition.ABISpork.PackMethodPanic(definition.SporkActivateMethodName, r.id))
+				if r.activated {
+					out.Count("node:act:activate-genesis-spork-already-activated")
+				} else {
+					out.Count("node:act:activate-genesis-spork-created-only")
+				}
 			}
 		}
 		h.step()
@@ -579,10 +723,43 @@ func (h *sporkHist) htlcRoundTrip() {
 	h.out.Count("node:htlc-round-trip")
 }
 
+// every run: the genesis configuration ships the three implemented sporks already activated, in nesting order
+// (accelerator <= bridge-and-liquidity <= htlc), at enforcement heights from 0 to just above SporkMinHeightDelay, plus a
+// created-only one and one far in the future; every early momentum is a frontier once, on the producer and on the follower.
+func genesisLadder(rng *rand.Rand, out *Out) {
+	top := int(constants.SporkMinHeightDelay) + 3
+	e := []int{rng.Intn(top), rng.Intn(top), rng.Intn(top)}
+	sort.Ints(e)
+	var ids [5]types.Hash
+	for i := range ids {
+		rng.Read(ids[i][:])
+	}
+	mk := func(i int, act bool, enf uint64) *definition.Spork {
+		return &definition.Spork{Id: ids[i], Name: fmt.Sprintf("spork-genesis-%d", i), Description: "shipped with the genesis configuration", Activated: act, EnforcementHeight: enf}
+	}
+	gsp := []*definition.Spork{mk(0, true, uint64(e[0])), mk(1, true, uint64(e[1])), mk(2, true, uint64(e[2])), mk(3, false, 0), mk(4, true, 1<<40)}
+	rng.Shuffle(len(gsp), func(i, j int) { gsp[i], gsp[j] = gsp[j], gsp[i] })
+	h := newSporkHist(rng, out, gsp)
+	defer h.close()
+	setRoles(ids[0], ids[2], ids[1])
+	out.Count(fmt.Sprintf("node:genesis-ladder:accelerator=%d:bridge=%d:htlc=%d", e[0], e[1], e[2]))
+	h.checkFrontier()
+	for i := 0; i < top+3; i++ {
+		if i == 2 {
+			h.send(g.Spork, types.SporkContract, types.ZnnTokenStandard, nil, definition.ABISpork.PackMethodPanic(definition.SporkActivateMethodName, ids[3]))
+			h.send(g.Spork, types.SporkContract, types.ZnnTokenStandard, nil, definition.ABISpork.PackMethodPanic(definition.SporkActivateMethodName, ids[4]))
+		}
+		h.step()
+		h.syncFollower(i%2 == 0)
+	}
+	h.htlcRoundTrip()
+	h.syncFollower(true)
+}
+
 // deterministic reproduction of F12 on the real node, every run: only the HTLC spork is created and activated
 func f12Repro(out *Out) {
 	rng := rand.New(rand.NewSource(17))
-	h := newSporkHist(rng, out)
+	h := newSporkHist(rng, out, nil)
 	defer h.close()
 	var none [3]types.Hash
 	for i := range none {
@@ -606,6 +783,7 @@ func f12Repro(out *Out) {
 func runNode(rng *rand.Rand, n int, out *Out, args []string) {
 	Quiet()
 	f12Repro(out)
+	genesisLadder(rng, out)
 	for i := 0; i < n; i++ {
 		nodeHistory(rng, out)
 	}
@@ -615,7 +793,7 @@ func runNode(rng *rand.Rand, n int, out *Out, args []string) {
 type fixedT struct{ dir string }
 
 func (t *fixedT) Fatalf(format string, args ...interface{}) { panic(fmt.Sprintf(format, args...)) }
-func (t *fixedT) TempDir() string                            { return t.dir }
+func (t *fixedT) TempDir() string                           { return t.dir }
 
 // haltchild <mode> <dir> <progress-file>;  mode: unknown | known | reopen
 func runHaltChild(rng *rand.Rand, n int, out *Out, args []string) {
